@@ -10,9 +10,5 @@ CONSTANTS
   FIXOHSEC = TRUE
   PEERIMPL = FALSE
   XorAcc <- SymXor
-  MAXLEN = 3
-  ALLCH = FALSE
-  Depth = 2
   GEN = FALSE
-  FAMILY = "ptr"
-INVARIANTS WFEquiv ErrIsAtomic AgreeReverse Involution Position WFReverses AgreeExpiry AgreeSegments EndsSwap Emit
+INVARIANTS SPErrIsAtomic StoredIsFresh SPInvolution FingerprintsStable EndpointsSwap Emit
